@@ -72,6 +72,41 @@ func (m *Module) Override(name string, value Object) error {
 	return TypeErrorf("type error: module has no attribute %q", name)
 }
 
+// Copy returns a module with the same name, code and callable that has
+// attribute tables of its own: Override on the copy leaves the original as it
+// was. Modules that are attributes of the module are shared between the two
+// until they are copied in turn.
+func (m *Module) Copy() *Module {
+	// (a table that the original does not have, the copy does not have either)
+	var builtins map[string]Object
+	if m.builtins != nil {
+		builtins = make(map[string]Object, len(m.builtins))
+		for name, value := range m.builtins {
+			builtins[name] = value
+		}
+	}
+	var globals []Object
+	if m.globals != nil {
+		globals = make([]Object, len(m.globals))
+		copy(globals, m.globals)
+	}
+	var globalsIndex map[string]int
+	if m.globalsIndex != nil {
+		globalsIndex = make(map[string]int, len(m.globalsIndex))
+		for name, index := range m.globalsIndex {
+			globalsIndex[name] = index
+		}
+	}
+	return &Module{
+		name:         m.name,
+		code:         m.code,
+		builtins:     builtins,
+		globals:      globals,
+		globalsIndex: globalsIndex,
+		callable:     m.callable,
+	}
+}
+
 func (m *Module) Interface() interface{} {
 	return nil
 }
